@@ -16,11 +16,13 @@ import (
 // and is not reported.
 func goLoopCapture(r *core.Run, rule, pkgRel string, floor int) {
 	n := 0
+	done := map[*ssa.Function]bool{}
 	for _, top := range r.W.PkgFuncs(pkgRel) {
 		for _, fn := range core.WithClosures(top) {
-			if len(fn.Blocks) == 0 {
+			if len(fn.Blocks) == 0 || done[fn] {
 				continue
 			}
+			done[fn] = true
 			reach := func(from *ssa.BasicBlock) map[*ssa.BasicBlock]bool {
 				seen := map[*ssa.BasicBlock]bool{}
 				work := append([]*ssa.BasicBlock{}, from.Succs...)
@@ -56,16 +58,18 @@ func goLoopCapture(r *core.Run, rule, pkgRel string, floor int) {
 					if !ok {
 						continue
 					}
-					// the cell lives outside the goroutine's loop …
-					inLoop := fwd[a.Block()] && reach(a.Block())[gb]
-					if inLoop {
-						continue
-					}
-					// … is overwritten inside it …
+					// some loop around the go statement overwrites the cell without
+					// re-creating it: a cycle through the go statement's block passes a
+					// store to the cell and avoids the block that allocates it
 					rewritten := false
-					for _, u := range core.Uses(a) {
-						if st, ok := u.(*ssa.Store); ok && st.Addr == ssa.Value(a) && fwd[st.Block()] && reach(st.Block())[gb] {
-							rewritten = true
+					if a.Block() != gb {
+						fwdA := reachAvoiding(gb, a.Block())
+						for _, u := range core.Uses(a) {
+							if st, ok := u.(*ssa.Store); ok && st.Addr == ssa.Value(a) && st.Block() != a.Block() {
+								if (st.Block() == gb || fwdA[st.Block()]) && (st.Block() == gb || reachAvoiding(st.Block(), a.Block())[gb]) && fwdA[gb] {
+									rewritten = true
+								}
+							}
 						}
 					}
 					// … and the goroutine reads it
@@ -92,4 +96,20 @@ func goLoopCapture(r *core.Run, rule, pkgRel string, floor int) {
 		}
 	}
 	r.Floor(rule, "goroutines started inside loops in "+pkgRel, n, floor)
+}
+
+// reachAvoiding: blocks reachable from `from` by at least one edge without entering `avoid`.
+func reachAvoiding(from, avoid *ssa.BasicBlock) map[*ssa.BasicBlock]bool {
+	seen := map[*ssa.BasicBlock]bool{}
+	work := append([]*ssa.BasicBlock{}, from.Succs...)
+	for len(work) > 0 {
+		b := work[len(work)-1]
+		work = work[:len(work)-1]
+		if b == avoid || seen[b] {
+			continue
+		}
+		seen[b] = true
+		work = append(work, b.Succs...)
+	}
+	return seen
 }
